@@ -73,7 +73,7 @@ def run_one(m, tier='quick'):
             outs.append(r.stdout + r.stderr)
             if r.returncode == 2:
                 return (m, 'infra', (r.stdout + r.stderr)[-1500:])
-            keys = re.findall(r'VIOLATION-KEY (\S+)', r.stdout)
+            keys = re.findall(r'VIOLATION-KEY (.*)', r.stdout)
             if r.returncode == 1 and any(re.search(m['expect'], k) for k in keys):
                 caught = True
         if caught:
